@@ -74,6 +74,7 @@ def generate(seed, tier):
                 "sub": P.s64(r),
                 "mode": r.choice(["honest", "honest", "rare"]),
                 "law": r.random() < (0.25 if tier == "thorough" else 0.03),
+                "positional": r.random() < 0.3,
             }
         )
     config = {"state": scfg}
@@ -258,7 +259,9 @@ def execute(plan):
                 if via == "rbm":
                     res = state.rbm_am.gibbs_steps(k, start_t, overwrite=op["overwrite"])
                 elif kind == "fresh":
-                    res = state.sample(k, num_samples=st["n"])
+                    res = state.sample(k, st["n"]) if op.get("positional") else state.sample(k, num_samples=st["n"])
+                elif op.get("positional"):
+                    res = state.sample(k, 7, start_t, op["overwrite"])  # num_samples is ignored when a start state is given
                 else:
                     res = state.sample(k, initial_state=start_t, overwrite=op["overwrite"])
             except Exception as exc:  # noqa: BLE001
